@@ -404,20 +404,20 @@ package astits
 //@   requires aligned(w)
 //@   modifies w.cache, w.cacheLen, sinkN(w.w), sinkData(w.w), sinkFails(w.w)
 //@   let n0 = old(wN(w))
-//@   ensures [C11,C04] n: written == 3
-//@   ensures [C11,C04] count: retErr == nil ==> wN(w) == n0 + 3 && aligned(w)
+//@   ensures [W] n: written == 3
+//@   ensures [W] count: retErr == nil ==> wN(w) == n0 + 3 && aligned(w)
 //@   ensures [C18] surfaced: wF(w) != old(wF(w)) ==> retErr != nil
 //@   ensures [C11] b0: retErr == nil ==> wD(w)[n0] == u8(h.TransportErrorIndicator) << 7 | u8(h.PayloadUnitStartIndicator) << 6 | u8(h.TransportPriority) << 5 | u8(h.PID >> 8 & 0x1f)
 //@   ensures [C11] b1: retErr == nil ==> wD(w)[n0 + 1] == u8(h.PID & 0xff)
 //@   ensures [C11] b2: retErr == nil ==> wD(w)[n0 + 2] == (h.TransportScramblingControl & 3) << 6 | u8(h.HasAdaptationField) << 5 | u8(h.HasPayload) << 4 | h.ContinuityCounter & 0x0f
-//@   ensures [C11,C04] prefix: sub(wD(w), 0, n0) == old(sub(wD(w), 0, wN(w)))
+//@   ensures [C11,C04] prefix: wPrefix(w)
 
 //@ func writePCR
 //@   requires aligned(w) && cr != nil
 //@   modifies writer(w)
 //@   let n0 = old(wN(w))
 //@   let V = encPCR(cr.Base, cr.Extension)
-//@   ensures [C11,C04] n: result0 == 6 && wN(w) == n0 + 6 && aligned(w) && result1 == nil
+//@   ensures [W] n: result0 == 6 && wN(w) == n0 + 6 && aligned(w) && result1 == nil
 //@   ensures [C11] bytes: wb(w, n0, 0) == u8(V >> 40) && wb(w, n0, 1) == u8(V >> 32) && wb(w, n0, 2) == u8(V >> 24) && wb(w, n0, 3) == u8(V >> 16) && wb(w, n0, 4) == u8(V >> 8) && wb(w, n0, 5) == u8(V)
 //@   ensures [C11,C04] prefix: wPrefix(w)
 //@   ensures [C18] surfaced: wF(w) != old(wF(w)) ==> result1 != nil
@@ -427,7 +427,7 @@ package astits
 //@   modifies writer(w)
 //@   let n0 = old(wN(w))
 //@   let V = encTS33(flag, cr.Base)
-//@   ensures [C12,C11,C04] n: bytesWritten == 5 && wN(w) == n0 + 5 && aligned(w) && retErr == nil
+//@   ensures [W] n: bytesWritten == 5 && wN(w) == n0 + 5 && aligned(w) && retErr == nil
 //@   ensures [C12,C11] bytes: wb(w, n0, 0) == u8(V >> 32) && wb(w, n0, 1) == u8(V >> 24) && wb(w, n0, 2) == u8(V >> 16) && wb(w, n0, 3) == u8(V >> 8) && wb(w, n0, 4) == u8(V)
 //@   ensures [C12,C11,C04] prefix: wPrefix(w)
 //@   ensures [C18] surfaced: wF(w) != old(wF(w)) ==> retErr != nil
@@ -437,7 +437,7 @@ package astits
 //@   modifies writer(w)
 //@   let n0 = old(wN(w))
 //@   let V = encESCR(cr.Base, cr.Extension)
-//@   ensures [C12,C04] n: result0 == 6 && wN(w) == n0 + 6 && aligned(w) && result1 == nil
+//@   ensures [W] n: result0 == 6 && wN(w) == n0 + 6 && aligned(w) && result1 == nil
 //@   ensures [C12] bytes: wb(w, n0, 0) == u8(V >> 40) && wb(w, n0, 1) == u8(V >> 32) && wb(w, n0, 2) == u8(V >> 24) && wb(w, n0, 3) == u8(V >> 16) && wb(w, n0, 4) == u8(V >> 8) && wb(w, n0, 5) == u8(V)
 //@   ensures [C12,C04] prefix: wPrefix(w)
 //@   ensures [C18] surfaced: wF(w) != old(wF(w)) ==> result1 != nil
@@ -447,7 +447,58 @@ package astits
 //@   modifies writer(w)
 //@   let n0 = old(wN(w))
 //@   let c = m.TrickModeControl & 7
-//@   ensures [C12,C04] n: result0 == 1 && wN(w) == n0 + 1 && aligned(w) && result1 == nil
+//@   ensures [W] n: result0 == 1 && wN(w) == n0 + 1 && aligned(w) && result1 == nil
 //@   ensures [C12] byte: wb(w, n0, 0) == c << 5 | ite(c == 0 || c == 3, (m.FieldID & 3) << 3 | u8(m.IntraSliceRefresh == 1) << 2 | m.FrequencyTruncation & 3, ite(c == 2, (m.FieldID & 3) << 3 | 7, ite(c == 1 || c == 4, m.RepeatControl & 0x1f, 0x1f)))
 //@   ensures [C12,C04] prefix: wPrefix(w)
 //@   ensures [C18] surfaced: wF(w) != old(wF(w)) ==> result1 != nil
+
+//@ func calcPacketAdaptationFieldExtensionLength
+//@   requires afe != nil
+//@   ensures [W] len: length == u8(1 + ite(afe.HasLegalTimeWindow, 2, 0) + ite(afe.HasPiecewiseRate, 3, 0) + ite(afe.HasSeamlessSplice, 5, 0))
+
+//@ func writePacketAdaptationFieldExtension
+//@   requires aligned(w) && afe != nil && (afe.HasSeamlessSplice ==> afe.DTSNextAccessUnit != nil)
+//@   modifies writer(w)
+//@   let n0 = old(wN(w))
+//@   let L = 1 + ite(afe.HasLegalTimeWindow, 2, 0) + ite(afe.HasPiecewiseRate, 3, 0) + ite(afe.HasSeamlessSplice, 5, 0)
+//@   let oPW = 2 + ite(afe.HasLegalTimeWindow, 2, 0)
+//@   let oSS = oPW + ite(afe.HasPiecewiseRate, 3, 0)
+//@   let V = encTS33(afe.SpliceType, afe.DTSNextAccessUnit.Base)
+//@   ensures [W] n: retErr == nil && bytesWritten == 1 + L && wN(w) == n0 + 1 + L && aligned(w)
+//@   ensures [C11] lenbyte: wb(w, n0, 0) == u8(L)
+//@   ensures [C11] flags: wb(w, n0, 1) == u8(afe.HasLegalTimeWindow) << 7 | u8(afe.HasPiecewiseRate) << 6 | u8(afe.HasSeamlessSplice) << 5 | 0x1f
+//@   ensures [C11] ltw: afe.HasLegalTimeWindow ==> wb(w, n0, 2) == u8(afe.LegalTimeWindowIsValid) << 7 | u8(afe.LegalTimeWindowOffset >> 8 & 0x7f) && wb(w, n0, 3) == u8(afe.LegalTimeWindowOffset & 0xff)
+//@   ensures [C11] pw: afe.HasPiecewiseRate ==> wb(w, n0, oPW) == 0xc0 | u8(afe.PiecewiseRate >> 16 & 0x3f) && wb(w, n0, oPW + 1) == u8(afe.PiecewiseRate >> 8 & 0xff) && wb(w, n0, oPW + 2) == u8(afe.PiecewiseRate & 0xff)
+//@   ensures [C11] ss: afe.HasSeamlessSplice ==> wb(w, n0, oSS) == u8(V >> 32) && wb(w, n0, oSS + 1) == u8(V >> 24) && wb(w, n0, oSS + 2) == u8(V >> 16) && wb(w, n0, oSS + 3) == u8(V >> 8) && wb(w, n0, oSS + 4) == u8(V)
+//@   ensures [C11,C04] prefix: wPrefix(w)
+//@   ensures [C18] surfaced: wF(w) != old(wF(w)) ==> retErr != nil
+
+//@ func newStuffingAdaptationField
+//@   ensures [W] one: bytesToStuff == 1 ==> result != nil && fresh(result) && result.IsOneByteStuffing && result.StuffingLength == 0
+//@   ensures [W] many: bytesToStuff != 1 ==> result != nil && fresh(result) && !result.IsOneByteStuffing && result.StuffingLength == bytesToStuff - 2 && !result.HasPCR && !result.HasOPCR && !result.HasSplicingCountdown && !result.HasTransportPrivateData && !result.HasAdaptationExtensionField && len(result.TransportPrivateData) == 0
+
+// afBody(af): bytes of an adaptation field after its length byte, when every optional part is as declared
+//@ func calcPacketAdaptationFieldLength
+//@   requires af != nil && (af.HasAdaptationExtensionField ==> af.AdaptationExtensionField != nil)
+//@   let ext = ite(af.HasAdaptationExtensionField, 2 + ite(af.AdaptationExtensionField.HasLegalTimeWindow, 2, 0) + ite(af.AdaptationExtensionField.HasPiecewiseRate, 3, 0) + ite(af.AdaptationExtensionField.HasSeamlessSplice, 5, 0), 0)
+//@   let body = 1 + ite(af.HasPCR, 6, 0) + ite(af.HasOPCR, 6, 0) + ite(af.HasSplicingCountdown, 1, 0) + ite(af.HasTransportPrivateData, 1 + len(af.TransportPrivateData), 0) + ext + af.StuffingLength
+//@   ensures [W] len: length == u8(body)
+
+//@ func writePacketAdaptationField
+//@   requires aligned(w) && afOK(af) && afBody(af) <= 255 && 0 <= wN(w) && wN(w) < 0x1000000000000
+//@   modifies writer(w)
+//@   let n0 = old(wN(w))
+//@   let body = afBody(af)
+//@   let flagsByte = u8(af.DiscontinuityIndicator) << 7 | u8(af.RandomAccessIndicator) << 6 | u8(af.ElementaryStreamPriorityIndicator) << 5 | u8(af.HasPCR) << 4 | u8(af.HasOPCR) << 3 | u8(af.HasSplicingCountdown) << 2 | u8(af.HasTransportPrivateData) << 1 | u8(af.HasAdaptationExtensionField)
+//@   split af.HasPCR, af.HasOPCR, af.HasTransportPrivateData, af.HasAdaptationExtensionField, af.HasSplicingCountdown
+//@   ensures [W] n: retErr == nil && bytesWritten == afBytes(af) && wN(w) == n0 + afBytes(af) && aligned(w)
+//@   ensures [C11,C04] onebyte: af.IsOneByteStuffing ==> wb(w, n0, 0) == 0
+//@   ensures [C11,C04] lenbyte: !af.IsOneByteStuffing ==> wb(w, n0, 0) == u8(body)
+//@   ensures [C11] flags: !af.IsOneByteStuffing ==> wb(w, n0, 1) == flagsByte
+//@   ensures [C18] surfaced: wF(w) != old(wF(w)) ==> retErr != nil
+//@   loop 0 invariant [W] cnt: i == iter && 0 <= i && i <= af.StuffingLength && aligned(w) && bytesWritten == atentry(bytesWritten) + iter && wN(w) == atentry(wN(w)) + iter && b.err == nil
+//@   loop 0 invariant [C18] latch: wF(w) != old(wF(w)) ==> b.err != nil
+//@   loop 0 invariant [W] eN: atentry(wN(w)) == n0 + 1 + body - af.StuffingLength && atentry(bytesWritten) == 1 + body - af.StuffingLength && !af.IsOneByteStuffing && n0 >= 0 && n0 < 0x1000000000000
+//@   loop 0 invariant [C11,C04] kLen: wb(w, n0, 0) == u8(body)
+//@   loop 0 invariant [C11] kFlags: wb(w, n0, 1) == flagsByte
+//@   loop 0 decreases [W] af.StuffingLength - i
